@@ -90,7 +90,9 @@ PlanOf(name) ==
                        !.Lays = {"alone", "around"}, !.dq = 4, !.dt = 5]
     [] name = "setters" ->      \* the setters on ImageInfo handles and failing cell calls change nothing
          [Small EXCEPT !.ops = {"AddImage", "AddTable", "AddCellImage", "BadCell", "Info", "Save", "Reopen"}, !.Toks = {"P1"},
-                       !.SizeNs = {"wh"}, !.Cells = {<<0, 0>>}, !.InfoNs = InfoOps, !.Hs = {"nil", "last", "first"}, !.dq = 2, !.dt = 3]
+                       !.SizeNs = {"wh"}, !.Cells = {<<0, 0>>}, !.InfoNs = IF Q THEN {"ResizeImage", "SetImageAlignment", "SetImagePosition"} ELSE InfoOps,
+                       !.Hs = {"nil", "last"},
+                       !.dq = 2, !.dt = 3]
     [] name = "mc" ->           \* the exhaustive check of the reference machine
          [Small EXCEPT !.CellVias = {"cfg-data", "data"}, !.Slots = {1, 2}, !.DataNs = {"d1", "d2"}, !.Keeps = {FALSE, TRUE},
                        !.Shapes = IF Q THEN {"gap", "upper", "noext"} ELSE ShapeNames,
